@@ -98,7 +98,7 @@ DESC = {
     "C19-3": ("C19", "client-id table re-keyed as u64, lookup parses the id with from_str_radix(.., 16)",
               "a never-issued spelling of an issued id (leading 0, leading +, upper case) passes the gate of every step"),
     "C19-4": ("C19", "check_call_more! / check_call_oneway!: the leading arm rejecting the OTHER mode flags removed as redundant",
-              "Test10 with both more and upgrade set streams its success replies (outside the claimed slice: call-mode checks)"),
+              "Test10 with both more and upgrade set streams its success replies"),
     "C20-1": ("C20", "varlink_call: the split is anchored on the FIRST dot (`url[..dot].rfind('/')`) instead of the last slash",
               "an address containing a dot (socket or directory name, tcp host, abstract name): the argument is cut too early"),
     "C20-2": ("C20", "resolver path: the idle resolver connection is reused when the resolved address `starts_with` the resolver address",
